@@ -414,6 +414,21 @@ class C19(Prop):
                         if acc2 != should:
                             acc.violation(f"class-accepts-wrong-category:{form}", f"{cname} built as {form} {'accepted' if acc2 else 'refused'} {t.name} "
                                           f"(category {t.category.name})", {"class": cname, "type": t.name, "form": form})
+                    # an application's own subclass of the device class is still that device class
+                    Sub = type("My" + cname, (cls,), {"note": "application subclass"})
+                    acc.ev()
+                    acc.distinct()
+                    try:
+                        Sub(**kw)
+                        acc3 = True
+                    except ValueError:
+                        acc3 = False
+                    except Exception as exc:
+                        acc3 = None
+                        acc.violation("constructor-crashed", f"a subclass of {cname} built with {t.name} raised {type(exc).__name__}: {exc}", {"class": cname, "type": t.name})
+                    if acc3 is not None and acc3 != should:
+                        acc.violation("class-accepts-wrong-category:subclass", f"a subclass of {cname} {'accepted' if acc3 else 'refused'} {t.name} (category {t.category.name})",
+                                      {"class": cname, "type": t.name})
                     if accepted != should:
                         acc.violation("class-accepts-wrong-category",
                                       f"{cname} {'accepted' if accepted else 'refused'} {t.name} (category {t.category.name})",
@@ -461,6 +476,20 @@ class C19(Prop):
             acc.distinct(3)
             a1 = self.api.SwitcherType1Api("127.0.0.1", "aaaaaa", "18")
             a2 = self.api.SwitcherType2Api("127.0.0.1", "aaaaaa", "18")
+            import copy
+            import pickle
+
+            for how, dup in (("copy.copy", copy.copy), ("copy.deepcopy", copy.deepcopy), ("pickle round trip", lambda o: pickle.loads(pickle.dumps(o)))):
+                for orig, want_port, nm in ((a1, 9957, "SwitcherType1Api"), (a2, 10000, "SwitcherType2Api")):
+                    acc.ev()
+                    acc.distinct()
+                    try:
+                        d_ = dup(orig)
+                    except Exception:
+                        acc.count("api_objects_that_cannot_be_duplicated_that_way")
+                        continue
+                    if getattr(d_, "_port", None) != want_port:
+                        acc.violation("wrong-tcp-port", f"a {how} of a {nm} uses port {getattr(d_, '_port', None)}, want {want_port}", {"api": nm, "how": how})
             if a1._port != 9957:
                 acc.violation("wrong-tcp-port", f"SwitcherType1Api uses port {a1._port}", {"api": 1, "got": a1._port})
             if a2._port != 10000:
